@@ -21,6 +21,7 @@ import (
 	"time"
 
 	"github.com/sharedcode/sop"
+	"github.com/sharedcode/sop/encoding"
 	"github.com/sharedcode/sop/zzvf"
 )
 
@@ -33,6 +34,10 @@ type vfDisk struct {
 	cowLen  int               // bytes of the backup file that reach the disk when its write is the crash point
 	writes  int               // completed segment writes
 	base    string            // stores base folder: "/d" in the engine, a scratch directory natively
+}
+
+func vfMarshal(h sop.Handle) ([]byte, error) {
+	return encoding.NewHandleMarshaler().Marshal(h, make([]byte, 0, sop.HandleSizeInBytes))
 }
 
 const vfSlot = 7 // slot of the handle the single-handle harnesses store (any slot behaves alike: C24)
